@@ -19,6 +19,10 @@ type regexpObj struct {
 	ncap   int
 	ascii  map[*syntax.Inst]*[128]bool
 	onepos bool // anchored at start of text
+	// longest: leftmost-longest matching (Regexp.Longest). As in regexp/backtrack.go a match is
+	// recorded when it is the first or ends later than the recorded one, and the search goes on
+	// unless the match used the entire text.
+	longest bool
 }
 
 var regexpCache = map[string]*regexpObj{}
@@ -254,10 +258,15 @@ func (m *reMatcher) try(pc uint32, pos int) bool {
 			pc = in.Out
 			continue
 		case syntax.InstMatch:
+			if !m.matched || (m.r.longest && pos > m.mcap[1]) {
+				m.mcap = append([]int(nil), m.cap...)
+				m.mcap[1] = pos
+			}
 			m.matched = true
-			m.mcap = append([]int(nil), m.cap...)
-			m.mcap[1] = pos
-			return true
+			if !m.r.longest || pos == len(m.bs) {
+				return true
+			}
+			return false // keep looking for a longer match
 		case syntax.InstRune, syntax.InstRune1, syntax.InstRuneAny, syntax.InstRuneAnyNotNL:
 			if m.visited[key] {
 				return false
@@ -296,7 +305,8 @@ func (r *regexpObj) exec(bs []value, from int) []int {
 			m.cap[i] = -1
 		}
 		m.cap[0] = pos
-		if m.try(uint32(r.prog.Start), pos) {
+		m.matched = false
+		if m.try(uint32(r.prog.Start), pos) || m.matched {
 			m.mcap[0] = pos
 			return m.mcap
 		}
@@ -342,6 +352,16 @@ func init() {
 			return tuple{&v, nilError()}
 		}
 	}
+	reg("(*regexp.Regexp).Longest", func(fr *frame, a []value) value {
+		p := a[0].(*value)
+		if p == nil {
+			panic(runtimeError("invalid memory address or nil pointer dereference"))
+		}
+		clone := *(*p).(*regexpObj) // compiled patterns are cached by expression: do not change the shared one
+		clone.longest = true
+		*p = &clone
+		return nil
+	})
 	reg("regexp.MustCompile", compile(true))
 	reg("regexp.Compile", compile(false))
 	reg("(*regexp.Regexp).String", func(fr *frame, a []value) value { return regexpArg(a[0]).expr })
